@@ -92,7 +92,25 @@ func driveC01(o opts) error {
 		if err != nil {
 			return err
 		}
-		cl, err := client.NewOVSDBClient(lab.db.Client, client.WithEndpoint("unix:"+lab.sock))
+		// a third of the cases: the client's model of P has no field for one or two (unindexed, unreferenced) columns
+		// of the schema; monitors without a field list still ask for every column of the schema
+		cdb := lab.db
+		hidden := map[string]bool{}
+		if g.Chance(0.3) {
+			for _, cn := range []string{"n", "ss", "m", "bs"} {
+				if g.Chance(0.4) {
+					hidden[cn] = true
+				}
+			}
+			if len(hidden) > 0 {
+				cdb, err = sc.BuildHiding(map[string]map[string]bool{"P": hidden})
+				if err != nil {
+					return err
+				}
+				w.Count("client model covers a subset of the columns")
+			}
+		}
+		cl, err := client.NewOVSDBClient(cdb.Client, client.WithEndpoint("unix:"+lab.sock))
 		if err != nil {
 			return err
 		}
@@ -138,6 +156,24 @@ func driveC01(o opts) error {
 						}
 					}
 				}
+				if t.Name == "P" && len(hidden) > 0 {
+					// what the client can hold: the requested columns its model has a field for
+					all := len(r.Cols) == 0
+					var vis []string
+					for _, c := range t.Cols {
+						in := all
+						for _, rc := range r.Cols {
+							in = in || rc == c.Name
+						}
+						if in && !hidden[c.Name] {
+							vis = append(vis, c.Name)
+						}
+					}
+					if len(vis) == 0 {
+						vis = []string{"name"}
+					}
+					r.Cols, r.NoFields = vis, all
+				}
 				m.req[t.Name] = r
 			}
 			mons = append(mons, m)
@@ -163,10 +199,12 @@ func driveC01(o opts) error {
 				}
 				var optsM []client.MonitorOption
 				for t, r := range m.req {
-					mdl := lab.db.New(t)
+					mdl := cdb.New(t)
 					var fields []interface{}
 					for _, c := range r.Cols {
-						fields = append(fields, lab.db.FieldPtr(mdl, t, c))
+						if !r.NoFields {
+							fields = append(fields, cdb.FieldPtr(mdl, t, c))
+						}
 					}
 					optsM = append(optsM, client.WithTable(mdl, fields...))
 				}
@@ -258,6 +296,22 @@ func driveC01(o opts) error {
 							"imm": {K: 'm', Map: [][2]val.Atom{{gen.AtomN('s', i), gen.AtomN('s', i+1)}, {gen.AtomN('s', i+3), gen.AtomN('s', i)}}}}})
 				}
 			}
+			if len(hidden) > 0 && ti == nt-1 {
+				// a column the client's model lacks changes together with one it has, and another table changes too
+				row := map[string]val.Val{}
+				for _, c := range sc.Tables[0].Cols {
+					if hidden[c.Name] {
+						row[c.Name] = tg.value(c, nil)
+					}
+				}
+				row["im"] = val.VA(val.Str("")) // unchanged immutable value: no effect
+				delete(row, "im")
+				ops = []TOp{
+					{Kind: "update", Table: "P", Where: []Cond{}, Row: row},
+					{Kind: "mutate", Table: "P", Where: []Cond{}, Muts: []Mut{{Col: "bi", Mutator: "insert", Arg: val.VS(val.Int(int64(ti % 2)))}}},
+					{Kind: "insert", Table: "Q", UUID: tg.fresh(), Row: map[string]val.Val{"name": val.VA(val.Str("late"))}},
+				}
+			}
 			viaClient := g.Chance(0.3) && pendingRelease == nil
 			var ob tObs
 			if viaClient {
@@ -295,7 +349,7 @@ func driveC01(o opts) error {
 				}
 				pendingRelease = nil
 			}
-			cacheNow := readCache(cl, lab.db) // read immediately after the call returned
+			cacheNow := readCache(cl, cdb) // read immediately after the call returned
 			for i := range ops {
 				if ops[i].Kind == "insert" && ops[i].UUID == "" {
 					ops[i].UUID = gen.UUIDn(700000 + ti*16 + i)
@@ -392,6 +446,11 @@ func driveC01(o opts) error {
 		w.Add(emit.Case{Term: term, JSON: map[string]interface{}{"monitors": monJ, "transactions": txnJ}, Key: term,
 			Nontrivial: nontrivial, Class: fmt.Sprintf("mons%d", nm), Oracle: oracle})
 	}
+	known, err := c01Witnesses(o, sc)
+	if err != nil {
+		return err
+	}
+	w.Extra["oracle_known"] = known
 	return w.Flush()
 }
 
